@@ -714,10 +714,10 @@ func init() {
 	})
 	core.Register(&core.Rule{
 		ID:    "R13.6",
-		Title: "the untyped reader never takes a zero value for an absent one",
-		Text: "restlicodec calls reflect.Value.IsZero nowhere: presence in an untyped document is decided by validity / nil-ness only. Skipping map entries whose value is 0, false or \"\" makes the generated decoder apply the schema default over a value that was sent. " +
+		Title: "a zero value is never taken for an absent one",
+		Text: "restlicodec and restli call reflect.Value.IsZero nowhere: presence (of a value in an untyped document, of a params object) is decided by validity / nil-ness only; a required parameter that is 0, false or \"\" is still encoded, so an all-zero params struct is not `no params`. Skipping map entries whose value is 0, false or \"\" makes the generated decoder apply the schema default over a value that was sent. " +
 			"(Expected count zero; a synthetic positive control is analysed on every run.)",
-		Props: []string{"C13", "C01", "C06"},
+		Props: []string{"C13", "C01", "C06", "C15", "C02"},
 		Floor: map[string]int{"v2": 1, "root": 1},
 		Run:   runR136,
 	})
@@ -934,7 +934,27 @@ func forbiddenIsZero(inf *types.Info, body ast.Node) []ast.Node {
 }
 
 func runR136(c *core.Ctx) {
-	const rel = "restlicodec"
+	funcs := 0
+	for _, rel := range []string{"restlicodec", "restli"} {
+		if c.M.Pkg(rel) == nil {
+			continue
+		}
+		funcs += runR136pkg(c, rel)
+	}
+	if funcs == 0 {
+		c.Unknown("restlicodec", "-", "functions using reflect", token.NoPos, "none found")
+	}
+	ctl := `package ctl
+import "reflect"
+func skip(v interface{}) bool { e := reflect.ValueOf(v); return !e.IsValid() || e.IsZero() }`
+	if f, cinf := parseControl(c, ctl); f != nil && len(forbiddenIsZero(cinf, f)) == 1 {
+		c.OK("-", "-", "positive control: a reflect.Value.IsZero call is recognised", 0, "")
+	} else {
+		c.Unknown("-", "-", "positive control", 0, "the analysis no longer recognises a reflect.Value.IsZero call")
+	}
+}
+
+func runR136pkg(c *core.Ctx, rel string) int {
 	inf := info(c, rel)
 	funcs := 0
 	for _, fd := range c.M.FuncDecls(rel) {
@@ -961,17 +981,7 @@ func runR136(c *core.Ctx) {
 		}
 		c.Check(len(bad) == 0, rel, core.DeclName(fd), "no reflect.Value.IsZero", fd.Pos(), "", "IsZero at "+where+": a present 0 / false / \"\" is treated as absent and the default is applied over it")
 	}
-	if funcs == 0 {
-		c.Unknown(rel, "-", "functions using reflect", token.NoPos, "none found")
-	}
-	ctl := `package ctl
-import "reflect"
-func skip(v interface{}) bool { e := reflect.ValueOf(v); return !e.IsValid() || e.IsZero() }`
-	if f, cinf := parseControl(c, ctl); f != nil && len(forbiddenIsZero(cinf, f)) == 1 {
-		c.OK("-", "-", "positive control: a reflect.Value.IsZero call is recognised", 0, "")
-	} else {
-		c.Unknown("-", "-", "positive control", 0, "the analysis no longer recognises a reflect.Value.IsZero call")
-	}
+	return funcs
 }
 
 func init() {
@@ -1399,7 +1409,7 @@ func runR059(c *core.Ctx) {
 		// the address of a variable declared in this body (`var c rootNode; …; return &c`) is new on every call
 		if u, ok := e.(*ast.UnaryExpr); ok && u.Op == token.AND {
 			if id, ok := core.Unparen(u.X).(*ast.Ident); ok {
-				if v, ok := core.ObjOf(inf, id).(*types.Var); ok && !v.IsField() && v.Pos() > fd.Body.Pos() && v.Pos() < fd.Body.End() {
+				if v, ok := core.ObjOf(inf, id).(*types.Var); ok && bodyLocal(inf, fd, v) {
 					return true
 				}
 			}
